@@ -316,6 +316,8 @@ impl TransactionTracker {
         &self,
         mem: &TransactionalMemory,
     ) -> Result<TransactionId> {
+        #[cfg(redb_verif)]
+        crate::verif::pause("read.before_register");
         let mut state = self.state.lock()?;
         let id = mem.get_last_committed_transaction_id()?;
         state
